@@ -104,3 +104,9 @@ META["C04"] = {
     "note": "An external client's early exit is only noticed by the runner at its next write (os/exec semantics), so the could-not-run branch of report() is decided by the table unit, not by the process unit; silent long-running clients are bounded by the runner's 20 s timeout and avoided.",
     "technique": "bounded-exhaustive truth-table enumeration + property-based process-fate injection (rapid) against a reference verdict model",
 }
+
+META["C05"] = {
+    "text": "Dispatch is observed from outside: the exported Run is executed with the test binary re-executed as observing client and server processes (and with in-process reference peers in client/server mode) over drawn configs, suites, --run/--skip pattern sets, --max-servers, answer orders, GOMAXPROCS and server start faults; the peers' logs are checked against an independent selection model for exactly-once hand-over, matching live server with the right address/certificate/test-name header, gRPC-peer names, the max-servers bound, stop of every server and absence of leftover processes. Thorough tier under the race detector. Schedules are perturbed, not enumerated.",
+    "note": "The permutation universe comes from the expansion code (checked by C07), selection and gRPC applicability are modelled independently; for in-process reference servers only TCP reachability is observed; server-mode deliveries are observable over cleartext HTTP/1.1 only.",
+    "technique": "property-based black-box testing (rapid) with observing peer processes and a reference selection model, concurrency perturbation under -race",
+}
